@@ -5,7 +5,6 @@ import unicodedata
 from collections.abc import MutableMapping
 from typing import Union
 
-import numpy
 
 from .iterators import peekable_iter
 
@@ -109,14 +108,14 @@ def sanitize_variable_name(
     if not base_name[:1].isidentifier():
         base_name = "_" + base_name
 
-    # Verify new name is not in env already, and if not add a random suffix.
+    # Verify new name is not in env already, and if it is, extend it until it
+    # is unique. The choice must be deterministic: the sanitized expression is
+    # used as the key under which stateful transforms record their state, so a
+    # random suffix would orphan that state on every re-use of a model spec.
     new_name = template.format(base_name)
     while new_name in env:
-        new_name = template.format(
-            base_name
-            + "_"
-            + "".join(numpy.random.choice(list("abcefghiklmnopqrstuvwxyz"), 10))
-        )
+        base_name += "_"
+        new_name = template.format(base_name)
 
     # Reuse the value for `name` for `new_name` also.
     if name in env:
